@@ -279,11 +279,11 @@ def argparse_function(
                                     ),
                                     expr=None,
                                 )
-                                if "default"
-                                in (
+                                if (
                                     intermediate_repr.get("returns")
-                                    or {"return_type": iter(())}
-                                )["return_type"]
+                                    or {"return_type": {}}
+                                )["return_type"].get("default")
+                                not in (None, "")
                                 else Return(
                                     value=Name("argument_parser", Load()), expr=None
                                 )
